@@ -19,11 +19,11 @@ func (a *Anchoring) Spec_getAnchoringEvaluatorFunction(params *FunctionDefinitio
 		if fun.Identifier() == params.Function {
 			return AnchoringWithParams{
 				fun:    fun,
-				params: parseFuncParams(fun, params),
+				params: Spec_parseFuncParams(fun, params),
 			}
 		}
 	}
-	existing := a.knownAnchoringEvaluatorsNames()
+	existing := a.Spec_knownAnchoringEvaluatorsNames()
 	panic(fmt.Errorf("%s anchoring function '%s' not found in %v", anchoringType, params.Function, existing))
 }
 
@@ -40,8 +40,8 @@ func (a *Anchoring) Spec_evaluateAnchoringAlternatives(
 	parsedProps *AnchoringParams,
 	criteria *model.Criteria,
 ) []model.AlternativeWithCriteria {
-	anchoringAlternatives := fetchAnchoringAlternativesWithCriteria(&allAlternatives, &parsedProps.AnchoringAlternatives)
-	referencePointsEvaluator := a.getReferencePointsFunction(&parsedProps.ReferencePoints)
+	anchoringAlternatives := Spec_fetchAnchoringAlternativesWithCriteria(&allAlternatives, &parsedProps.AnchoringAlternatives)
+	referencePointsEvaluator := a.Spec_getReferencePointsFunction(&parsedProps.ReferencePoints)
 	referencePoints := referencePointsEvaluator.Evaluate(parsedProps.ReferencePoints, anchoringAlternatives, criteria)
 	return referencePoints
 }
@@ -52,7 +52,7 @@ func (a *Anchoring) Spec_getReferencePointsFunction(params *FunctionDefinition) 
 			return fun
 		}
 	}
-	knownReferencePointsEvaluators := a.knownReferencePointsEvaluatorsNames()
+	knownReferencePointsEvaluators := a.Spec_knownReferencePointsEvaluatorsNames()
 	panic(fmt.Errorf(
 		"reference points function type '%s' not found in %v",
 		params.Function, knownReferencePointsEvaluators,
